@@ -80,7 +80,7 @@ LINKS = ['R-LINK-PAIR', 'R-HEAD-REPOINT', 'R-LINK-WALK', 'R-DIRECTION', 'R-NO-EA
 RESOLVE = ['R-TRACK-AGREE', 'R-OWN-ERROR', 'R-NO-STALE-CACHE', 'R-LRU-ASSEMBLY', 'R-NEAREST-WE']
 WALK = ['R-RELEVANCE', 'R-STACK-BLOCKS', 'R-EVERY-PREFIX', 'R-NO-EARLY-EXIT', 'R-NODE-ALIAS']
 
-READ_BASICS = ['R-TAIL-PROTOCOL', 'R-READ-RESETS', 'R-BST-AGREE', 'R-PRIMITIVES']
+READ_BASICS = ['R-TAIL-PROTOCOL', 'R-READ-RESETS', 'R-BST-AGREE', 'R-PRIMITIVES', 'R-STORAGE-IFACE', 'R-STORAGE-SEM', 'R-FRESH', 'R-DIRTY-WRITTEN']
 
 
 def G(pid):
@@ -88,37 +88,37 @@ def G(pid):
 
 
 RULESETS = {
- 'C01': TRIE + ['R-CRAWLED', 'R-PAGE-REPORT', 'R-READONLY', 'R-ARGS-HONOURED', 'R-ENUM-FILTERS', 'R-ALLOC', 'R-GEOMETRY', 'R-LINK-PAIR', 'R-PRIMITIVES'] + [('R-WRAPPERS', ['Traph.index_batch_crawl'])] + ['R-NODE-ALIAS'] + G('C01'),
+ 'C01': TRIE + ['R-CRAWLED', 'R-PAGE-REPORT', 'R-READONLY', 'R-ARGS-HONOURED', 'R-ENUM-FILTERS', 'R-ALLOC', 'R-GEOMETRY', 'R-LINK-PAIR', 'R-PRIMITIVES'] + [('R-WRAPPERS', ['Traph.index_batch_crawl'])] + ['R-NODE-ALIAS'] + ['R-EVERY-ITEM', 'R-STORAGE-IFACE', 'R-STORAGE-SEM'] + G('C01'),
  'C02': TRIE + ['R-GEOMETRY', 'R-ACCESSOR-TABLE', 'R-STORAGE-IFACE', 'R-STORAGE-SEM', 'R-STORAGE-STATELESS', 'R-PRIMITIVES'] + G('C02'),
  'C03': LINKS + ['R-ACCESSOR-TABLE', ('R-FILTER-AGREE', ['Traph.get_page_links']), 'R-FRESH', 'R-DIRTY-WRITTEN', ('R-NULL-HEAD', PAGE_LINKS), 'R-ARGS-HONOURED', 'R-DEGREE-FLAGS',
-         'R-PRIMITIVES'] + [('R-WRAPPERS', ['Traph.index_batch_crawl'])] + G('C03'),
+         'R-PRIMITIVES'] + [('R-WRAPPERS', ['Traph.index_batch_crawl'])] + ['R-EVERY-ITEM'] + G('C03'),
  'C04': RESOLVE + ['R-BST-AGREE', 'R-TAIL-PROTOCOL', 'R-READ-RESETS', 'R-WE-ATTACH', 'R-FRESH', 'R-DIRTY-WRITTEN', 'R-ARGS-HONOURED', 'R-PREFIX-EDIT', 'R-REFUSE-CLEAN',
-                   'R-LADDER-AGREE', 'R-PRIMITIVES'] + G('C04'),
- 'C05': WALK + RESOLVE + ['R-READ-RESETS', 'R-TAIL-PROTOCOL', 'R-ENUM-FILTERS', 'R-BST-AGREE', 'R-ACCUMULATE', 'R-PRIMITIVES'] + [('R-WRAPPERS', ['Traph.get_webentity_pages', 'Traph.get_webentity_crawled_pages'])] + G('C05'),
+                   'R-LADDER-AGREE', 'R-PRIMITIVES'] + READ_BASICS + G('C04'),
+ 'C05': WALK + RESOLVE + ['R-READ-RESETS', 'R-TAIL-PROTOCOL', 'R-ENUM-FILTERS', 'R-BST-AGREE', 'R-ACCUMULATE', 'R-PRIMITIVES'] + [('R-WRAPPERS', ['Traph.get_webentity_pages', 'Traph.get_webentity_crawled_pages'])] + READ_BASICS + G('C05'),
  'C06': ['R-LADDER-AGREE', 'R-TRACK-AGREE', 'R-RULES-TO-APPLY', 'R-ID', 'R-RULE-INSTALL', 'R-WE-ATTACH', 'R-VARIATIONS', 'R-BST-AGREE', 'R-SKIP-CHILDLESS', 'R-PREFIX-EDIT',
-         'R-FRESH', 'R-DIRTY-WRITTEN', 'R-PRIMITIVES'] + [('R-WRAPPERS', ['Traph.add_webentity_creation_rule'])] + G('C06'),
+         'R-FRESH', 'R-DIRTY-WRITTEN', 'R-PRIMITIVES'] + [('R-WRAPPERS', ['Traph.add_webentity_creation_rule'])] + ['R-OPEN-TABLE', ('R-READONLY', ['Traph.get_potential_prefix'])] + G('C06'),
  'C07': ['R-PROPAGATE', ('R-FILTER-AGREE', NETWORK), ('R-MEMO-KEY', NETWORK), ('R-NULL-HEAD', NETWORK), 'R-NO-STALE-CACHE', 'R-LRU-ASSEMBLY', 'R-ARGS-HONOURED', 'R-NEAREST-WE',
-         ('R-ACCUMULATE', NETWORK)] + LINKS + READ_BASICS + [('R-WRAPPERS', NETWORK)] + ['R-NODE-ALIAS'] + G('C07'),
- 'C08': [('R-NULL-HEAD', WE_LINKS), ('R-FILTER-AGREE', WE_FILTERS), ('R-MEMO-KEY', ['!Traph.get_webentities_*']), 'R-NO-STALE-CACHE', 'R-DISTINCT-DEGREE',
+         ('R-ACCUMULATE', NETWORK)] + LINKS + READ_BASICS + [('R-WRAPPERS', NETWORK)] + ['R-NODE-ALIAS'] + ['R-EVERY-ITEM'] + G('C07'),
+ 'C08': [('R-NULL-HEAD', WE_LINKS), ('R-FILTER-AGREE', WE_FILTERS + WE_LINKS), ('R-MEMO-KEY', ['!Traph.get_webentities_*']), 'R-NO-STALE-CACHE', 'R-DISTINCT-DEGREE',
          'R-LRU-ASSEMBLY', 'R-ARGS-HONOURED', 'R-FRESH', 'R-DIRTY-WRITTEN', 'R-NEAREST-WE', ('R-ACCUMULATE', ['Traph.get_webentity_*'])] + WALK + LINKS + READ_BASICS + [('R-WRAPPERS', ['Traph.get_webentity_*'])] + G('C08'),
  'C09': [('R-TOKEN-PAIR', ['Traph.paginate_webentity_pages']), 'R-TOKEN-CODEC', 'R-ORDER', ('R-PAGINATE', ['Traph.paginate_webentity_pages'])] + WALK + MONO + READ_BASICS + G('C09'),
  'C10': [('R-TOKEN-PAIR', PAGELINK_PAGING), ('R-FILTER-AGREE', WE_FILTERS), ('R-MEMO-KEY', WE_FILTERS), ('R-NULL-HEAD', PAGELINK_PAGING), 'R-TOKEN-CODEC', 'R-ORDER',
-         ('R-PAGINATE', PAGELINK_PAGING), 'R-RELEVANCE', 'R-EVERY-PREFIX', 'R-NO-EARLY-EXIT', 'R-LINK-WALK', 'R-NEAREST-WE', ('R-ACCUMULATE', WE_FILTERS)] + READ_BASICS + ['R-NODE-ALIAS'] + G('C10'),
+         ('R-PAGINATE', PAGELINK_PAGING), 'R-RELEVANCE', 'R-EVERY-PREFIX', 'R-NO-EARLY-EXIT', 'R-LINK-WALK', 'R-NEAREST-WE', ('R-ACCUMULATE', WE_FILTERS)] + READ_BASICS + ['R-NODE-ALIAS'] + ['R-NO-STALE-CACHE'] + G('C10'),
  'C11': ['R-OPEN-TABLE', 'R-CLEAR-AGREE', 'R-GEOMETRY', 'R-ID', 'R-DIRTY-WRITTEN', 'R-STORAGE-SEM', 'R-STORAGE-IFACE', 'R-RULE-INSTALL', 'R-CLOSE', 'R-STORAGE-STATELESS',
          'R-PRIMITIVES'] + G('C11'),
- 'C12': ['R-ID', 'R-DIRTY-WRITTEN', 'R-STORAGE-IFACE', 'R-STORAGE-SEM', 'R-REFUSE-CLEAN', 'R-PRIMITIVES', 'R-PREFIX-EDIT', 'R-STORAGE-STATELESS'] + G('C12'),
+ 'C12': ['R-ID', 'R-DIRTY-WRITTEN', 'R-STORAGE-IFACE', 'R-STORAGE-SEM', 'R-REFUSE-CLEAN', 'R-PRIMITIVES', 'R-PREFIX-EDIT', 'R-STORAGE-STATELESS'] + ['R-OPEN-TABLE', 'R-CLEAR-AGREE'] + G('C12'),
  'C13': ['R-WE-ATTACH', 'R-ANCESTOR-FLAG', 'R-SKIP-CHILDLESS', 'R-HIERARCHY', 'R-FRESH', 'R-DIRTY-WRITTEN', 'R-EVERY-PREFIX', 'R-ARGS-HONOURED', 'R-NO-EARLY-EXIT',
          'R-PRIMITIVES', 'R-NEAREST-WE', ('R-ACCUMULATE', ['Traph.get_webentity_child_webentities_iter'])] + MONO + [('R-WRAPPERS', ['Traph.get_webentity_child_webentities'])] + ['R-NODE-ALIAS'] + G('C13'),
  'C14': ['R-READONLY', 'R-WRITE-API'],
  'C15': ['R-STORAGE-IFACE', 'R-STORAGE-SEM', 'R-OPEN-TABLE', 'R-CLEAR-AGREE', 'R-READ-RESETS', 'R-STORAGE-STATELESS'] + G('C15'),
  'C16': ['R-FRESH', 'R-DIRTY-WRITTEN', 'R-STACK-BLOCKS', 'R-NO-STALE-CACHE', ('R-FILTER-AGREE', NETWORK), ('R-MEMO-KEY', NETWORK), 'R-DIRECTION', 'R-LINK-PAIR',
-         'R-PRIMITIVES', 'R-READ-RESETS', 'R-ACCUMULATE'] + ['R-WRAPPERS'] + ['R-NODE-ALIAS'] + G('C16'),
+         'R-PRIMITIVES', 'R-READ-RESETS', 'R-ACCUMULATE'] + ['R-WRAPPERS'] + ['R-NODE-ALIAS'] + ['R-EVERY-ITEM'] + G('C16'),
  'C17': ['R-VARIATIONS', 'R-LADDER-AGREE', 'R-ID', 'R-NO-STALE-CACHE'] + G('C17'),
  'C18': ['R-OPEN-TABLE', 'R-POINTEE-FIRST', 'R-GEOMETRY', 'R-NONE-CHECK', 'R-STORAGE-IFACE', 'R-HEAD-REPOINT', 'R-FRESH', 'R-DIRTY-WRITTEN', 'R-TAIL-PROTOCOL',
          'R-STORAGE-STATELESS', 'R-PRIMITIVES', 'R-CLOSE'] + G('C18'),
  'C19': ['R-CHUNK-LAST', 'R-ALLOC', 'R-GEOMETRY', 'R-METRICS', 'R-HEAD-REPOINT', 'R-LINK-PAIR', 'R-LINK-WALK', 'R-FRESH', 'R-DIRTY-WRITTEN', 'R-TAIL-PROTOCOL', 'R-READ-RESETS',
-         'R-BST-AGREE', 'R-STORAGE-SEM', 'R-STORAGE-STATELESS', 'R-PRIMITIVES'] + G('C19'),
- 'C20': [('R-NULL-HEAD', MOST_LINKED), 'R-DISTINCT-DEGREE', 'R-TOPK', 'R-LINK-PAIR', 'R-LINK-WALK', 'R-HEAD-REPOINT', ('R-ACCUMULATE', MOST_LINKED)] + WALK + READ_BASICS + [('R-WRAPPERS', ['Traph.get_webentity_most_linked_pages'])] + G('C20'),
+         'R-BST-AGREE', 'R-STORAGE-SEM', 'R-STORAGE-STATELESS', 'R-PRIMITIVES'] + ['R-CLEAR-AGREE', 'R-EVERY-ITEM'] + G('C19'),
+ 'C20': [('R-NULL-HEAD', MOST_LINKED), 'R-DISTINCT-DEGREE', 'R-TOPK', 'R-LINK-PAIR', 'R-LINK-WALK', 'R-HEAD-REPOINT', ('R-ACCUMULATE', MOST_LINKED)] + WALK + READ_BASICS + [('R-WRAPPERS', ['Traph.get_webentity_most_linked_pages'])] + [('R-FILTER-AGREE', MOST_LINKED)] + G('C20'),
 }
 
 TEXTS = {'C01': {'claim': 'no stale write-back, no lost flag update, page/crawled marks monotone, structural pointers append-only and pointee-first paired, one strict '
